@@ -51,6 +51,7 @@ from .ast_nodes import (
 )
 from .opcodes import OpCode
 from .values import UNDEFINED
+from .errors import JSError
 
 
 @dataclass
@@ -186,11 +187,22 @@ class Compiler:
         if arg is not None:
             if opcode in self._JUMP_OPCODES:
                 # 16-bit little-endian for jump targets
+                self._check_fits(arg, 0xFFFF, "jump target")
                 self.bytecode.append(arg & 0xFF)
                 self.bytecode.append((arg >> 8) & 0xFF)
             else:
+                self._check_fits(arg, 0xFF, f"{opcode.name} operand")
                 self.bytecode.append(arg)
         return pos
+
+    @staticmethod
+    def _check_fits(value: int, limit: int, what: str) -> None:
+        """Refuse programs the bytecode format cannot express, instead of truncating."""
+        if not 0 <= value <= limit:
+            raise JSError(
+                f"Program too large: {what} {value} exceeds the bytecode limit of {limit}"
+                " (too many constants, variables, arguments or too much code in one function)"
+            )
 
     def _set_loc(self, node: Node) -> None:
         """Set current source location from an AST node."""
@@ -215,6 +227,7 @@ class Compiler:
         """
         if target is None:
             target = len(self.bytecode)
+        self._check_fits(target, 0xFFFF, "jump target")
         self.bytecode[pos + 1] = target & 0xFF  # Low byte
         self.bytecode[pos + 2] = (target >> 8) & 0xFF  # High byte
 
